@@ -1288,11 +1288,12 @@ impl ManageConnection for ServerPool {
             return false;
         }
 
-        // A connection that comes back still inside a transaction, in copy mode,
-        // with unread data or with session state that was not reset was released
+        // A connection that comes back still inside a transaction, in copy mode, waiting
+        // for a Sync, with unread data or with session state that was not reset was released
         // without `checkin_cleanup` (client error path): never hand it to another client.
         conn.in_transaction()
             || conn.in_copy_mode()
+            || conn.awaiting_sync()
             || conn.is_data_available()
             || conn.needs_cleanup()
     }
